@@ -1135,6 +1135,22 @@ class NF:
                     m.imports.setdefault(a.asname, a.name)
 
     # ------------------------------------------------------------------ constructor expansion
+    def _init_body(self, init, c):
+        """the constructor's statements: the canonical body (helpers seen through, Base.__init__(self, ..) of a dataclass base
+        written out) when it stays within what init_fields interprets, else the source body"""
+        raw = normalise_loops(real_body(init))
+        try:
+            cn = getattr(self.prog, "_canon", None)
+            if cn is None:
+                from .canon import Canon
+                cn = self.prog._canon = Canon(self.prog)
+            cb = cn.body(init, c.module, c)
+        except Exception:
+            return raw
+        simple = all(isinstance(st, (ast.Assign, ast.Pass, ast.Assert)) or (isinstance(st, ast.Expr) and isinstance(st.value, (ast.Constant, ast.Call))) for st in cb)
+        raw_simple = all(isinstance(st, (ast.Assign, ast.Pass, ast.Assert)) or (isinstance(st, ast.Expr) and isinstance(st.value, (ast.Constant, ast.Call))) for st in raw)
+        return cb if simple or not raw_simple else raw
+
     def init_fields(self, cls: Class, args: dict, env: Env | None = None, depth: int = 0) -> dict:
         """fields of the object built by cls(**args): interprets a straight-line explicit __init__
         (self.f = e, locals, super().__init__(...)) or the dataclass-generated one"""
@@ -1155,7 +1171,7 @@ class NF:
         me = ("sym", "<new>")
         e2 = Env(c.module, c, {**args, init.args.args[0].arg: me}, dict(env.types) if env else {}, (env.depth + 1) if env else 0, env.vdepth if env else 0)
         fields: dict = {}
-        for st in normalise_loops(real_body(init)):
+        for st in self._init_body(init, c):
             if isinstance(st, ast.Assign) and len(st.targets) == 1:
                 tg = st.targets[0]
                 v = self.ev(st.value, e2)
